@@ -2,6 +2,7 @@ package harness
 
 import (
 	"bufio"
+	"errors"
 	"fmt"
 	"io"
 	"net"
@@ -43,6 +44,33 @@ type SimBroker struct {
 	MaxPayload int
 	// ConnOptions are appended to the options of every connection made afterwards.
 	ConnOptions []nats.Option
+	// Down: the server is gone; dialling fails until it is back.
+	Down bool
+}
+
+// GoDown stops the server: every client connection is cut and new ones are refused until ComeBack.
+func (b *SimBroker) GoDown() {
+	b.mu.Lock()
+	b.Down = true
+	cs := append([]*BrokerConn(nil), b.conns...)
+	b.subs = nil
+	b.mu.Unlock()
+	for _, c := range cs {
+		b.mu.Lock()
+		was := c.closed
+		c.closed = true
+		b.mu.Unlock()
+		if !was {
+			c.srv.Close()
+		}
+	}
+}
+
+// ComeBack lets clients connect again.
+func (b *SimBroker) ComeBack() {
+	b.mu.Lock()
+	b.Down = false
+	b.mu.Unlock()
 }
 
 type bsub struct {
@@ -122,6 +150,12 @@ type brokerDialer struct {
 }
 
 func (d *brokerDialer) Dial(network, address string) (net.Conn, error) {
+	d.b.mu.Lock()
+	down := d.b.Down
+	d.b.mu.Unlock()
+	if down {
+		return nil, errors.New("dial tcp 127.0.0.1:4222: connect: connection refused")
+	}
 	cli, srv := net.Pipe()
 	b := d.b
 	b.mu.Lock()
